@@ -160,6 +160,39 @@ func init() {
 		e.heapSet(n, Store(e.heapGet(n, hs), r, App("utf16.arr", ArraySort(BV(64), BV(16)), arr, SlOff(rs), SlLen(rs))))
 		return MkSlice(r, bv64zero, ln, ln), true
 	}
+	goModels["(*github.com/jcmturner/rpc/v2/mstypes.RPCSID).String"] = func(e *Exec, c *ssa.CallCommon, a []Val, in ssa.Instruction) (Val, bool) {
+		e.trust("mstypes.RPCSID.String is a deterministic function of the SID (uninterpreted function of its fields and sub-authorities)")
+		p, ok := a[0].(*Ptr)
+		if !ok {
+			return nil, false
+		}
+		ws := e.silent
+		sv := e.load(p)
+		e.silent = ws
+		st, ok2 := sv.(*Term)
+		if !ok2 {
+			return nil, false
+		}
+		t := e.P.lookupType("github.com/jcmturner/rpc/v2/mstypes.RPCSID")
+		if t == nil {
+			return nil, false
+		}
+		si := structInfo(t)
+		var sub *Term
+		for i, f := range si.Fields {
+			if f.Name == "SubAuthority" {
+				sub = FieldSel(si, st, i)
+			}
+		}
+		if sub == nil {
+			return nil, false
+		}
+		arr := e.backingCanon(sub, types.Typ[types.Uint32])
+		e.declareRaw("(declare-fun uf.sidstring (" + si.Sort + " (Array (_ BitVec 64) (_ BitVec 32))) Str)")
+		r := e.vc.Define("sidstr", App("uf.sidstring", SStr, st, arr))
+		e.vc.Assume(True, App("str_ok", SBool, r))
+		return r, true
+	}
 	goModels["(hash.Hash).Size"] = func(e *Exec, c *ssa.CallCommon, a []Val, in ssa.Instruction) (Val, bool) {
 		return App("hsize", BV(64), IfRef(a[0].(*Term))), true
 	}
@@ -1038,6 +1071,9 @@ func init() {
 		ln, pos := e.rdGet(IfRef(src))
 		r := e.allocRef("mrd")
 		e.rdSet(r, e.vc.Define("rdlen", BVSub(ln, pos)), bv64zero)
+		// contents: the source's byte sequence, read from the source's current position on
+		e.heapSet("GH.rdseq", Store(e.heapGet("GH.rdseq", "(Array Int BSeq)"), r, e.ghGet("GH.rdseq", "(Array Int BSeq)", IfRef(src))))
+		e.heapSet("GH.rdbase", Store(e.heapGet("GH.rdbase", ghSort), r, pos))
 		t := e.P.lookupType("github.com/jcmturner/rpc/v2/mstypes.Reader")
 		if t == nil {
 			return nil, false
@@ -1058,6 +1094,20 @@ func init() {
 			v := e.havocTerm("rdv", sig.Results().At(0).Type())
 			errT := e.havocTerm("err", sig.Results().At(1).Type())
 			e.vc.Assume(True, Eq(Eq(IfTag(errT), IntLit(0)), ok2))
+			// value: the n octets at the cursor in little-endian order (mstypes.Reader uses binary.LittleEndian)
+			e.trust("mstypes.Reader.Uint8/16/32/64 and ReadBytes return the octets at the cursor of the underlying byte sequence (little-endian for the integers)")
+			seq := e.ghGet("GH.rdseq", "(Array Int BSeq)", p.Ref)
+			base := e.ghGet("GH.rdbase", ghSort, p.Ref)
+			var val *Term
+			for k := int64(0); k < n; k++ {
+				bt := App("bseq.at", BV(8), seq, BVAdd(BVAdd(base, pos), BVLitI(k, 64)))
+				if val == nil {
+					val = bt
+				} else {
+					val = App("concat", BV(int(8*(k+1))), bt, val)
+				}
+			}
+			e.vc.Assume(True, Implies(ok2, Eq(v, val)))
 			return Tuple{v, errT}, true
 		}
 	}
@@ -1074,9 +1124,16 @@ func init() {
 		e.rdSet(p.Ref, nil, e.vc.Define("rdpos", Ite(ok2, BVAdd(pos, n), ln)))
 		r := e.allocRef("rdb")
 		nh, hs := elemHeap(types.Typ[types.Byte])
-		e.heapSet(nh, Store(e.heapGet(nh, hs), r, e.vc.Fresh("rdbytes", ArraySort(BV(64), BV(8)))))
+		arr := e.vc.Fresh("rdbytes", ArraySort(BV(64), BV(8)))
+		e.heapSet(nh, Store(e.heapGet(nh, hs), r, arr))
 		errT := e.havocTerm("err", c.Signature().Results().At(1).Type())
 		e.vc.Assume(True, Eq(Eq(IfTag(errT), IntLit(0)), ok2))
+		// contents: the n octets at the cursor
+		seq := e.ghGet("GH.rdseq", "(Array Int BSeq)", p.Ref)
+		base := e.ghGet("GH.rdbase", ghSort, p.Ref)
+		kq := Sym("rk.q", BV(64))
+		e.vc.Assume(True, Implies(ok2, Forall([][2]string{{"rk.q", BV(64)}},
+			Implies(And(SGe(kq, bv64zero), SLt(kq, n)), Eq(Select(arr, kq), App("bseq.at", BV(8), seq, BVAdd(BVAdd(base, pos), kq)))), Select(arr, kq))))
 		return Tuple{MkSlice(r, bv64zero, n, n), errT}, true
 	}
 }
